@@ -58,6 +58,8 @@ type outcome struct {
 	// the replica / straight from the cond router (scenario.Via)
 	ThroughReplica int        `json:"uploads_through_replica"`
 	DirectFromCond int        `json:"uploads_direct_from_cond"`
+	// Attach: schedule of the constructor race of each incarnation (family "attach-race")
+	Attach         []attachObs `json:"attach_race,omitempty"`
 	Log            []evt      `json:"log,omitempty"`
 	EffQueue       []effEvent `json:"effective_queue_mutations,omitempty"`
 	sigKind        string
@@ -225,7 +227,13 @@ func (w *world) drive(inc *incarnation, retry []sto.Blob, acked map[string]bool,
 // execute runs one scenario and judges it.
 func execute(sc *scenario) *outcome {
 	o := &outcome{sc: sc, sigKind: sc.Kind}
-	w, err := newWorld(sc)
+	var w *world
+	var err error
+	if sc.pre != nil {
+		w, err = sc.pre.w, sc.pre.err
+	} else {
+		w, err = newWorld(sc)
+	}
 	if err != nil {
 		o.Inconclusive = "world: " + err.Error()
 		return o
@@ -267,8 +275,16 @@ func execute(sc *scenario) *outcome {
 				}
 			}
 		}
-		inc := w.start(is)
+		var inc *incarnation
+		if i == 0 && sc.pre != nil && sc.pre.inc != nil {
+			inc = sc.pre.inc
+		} else {
+			inc = w.start(is)
+		}
 		o.Incarnations++
+		if inc.attach != nil {
+			o.Attach = append(o.Attach, *inc.attach)
+		}
 		if w.live != nil {
 			o.QueueReopens = w.live.reopens
 		}
